@@ -216,8 +216,8 @@ fn base_archives() -> Vec<(String, Vec<u8>)> {
         v.push((format!("foreign-leaves-{}", cname(c)), foreign::build(&foreign_leaf_spec(comp_code(c))).bytes));
     }
     v.push(("lib-empty-none".into(), write_lib(&Logical::new(Compression::None), Api::Sync).unwrap()));
-    v.push(("foreign-depth3-none".into(), foreign::build(&Spec { order: 0, gap: 0, root_gap: false, shape: Shape::Depth3, run: 2, offs: Offs::Contiguous, n: 7, meta: 1, comp: 1, base: 0, hv: 0 }).bytes));
-    v.push(("foreign-mixed-gzip".into(), foreign::build(&Spec { order: 4, gap: 1, root_gap: false, shape: Shape::Mixed, run: 1, offs: Offs::BackRefs, n: 7, meta: 2, comp: 2, base: 5, hv: 1 }).bytes));
+    v.push(("foreign-depth3-none".into(), foreign::build(&Spec { order: 0, gap: 0, root_gap: false, shape: Shape::Depth3, run: 2, offs: Offs::Contiguous, n: 7, meta: 1, comp: 1, base: 0, hv: 0, level_order: false }).bytes));
+    v.push(("foreign-mixed-gzip".into(), foreign::build(&Spec { order: 4, gap: 1, root_gap: false, shape: Shape::Mixed, run: 1, offs: Offs::BackRefs, n: 7, meta: 2, comp: 2, base: 5, hv: 1, level_order: false }).bytes));
     let mut l1 = Logical::new(Compression::ZStd);
     l1.tiles.insert(9, b"z".to_vec());
     v.push(("lib-1tile-zstd".into(), write_lib(&l1, Api::Async).unwrap()));
@@ -500,9 +500,9 @@ pub fn lenient_cost(b: &[u8]) -> u64 {
         if *visits > 20_000 || depth > 8 {
             return;
         }
-        let Some(end) = off.checked_add(len) else { return };
-        // the library reads what is there even if the section is truncated by the end of file
-        let end = end.min(b.len() as u64);
+        // the library reads what is there even if the declared section is longer than the file
+        // (`take(length)` on a stream that simply ends), so an overflowing length is "until EOF"
+        let end = off.saturating_add(len).min(b.len() as u64);
         if off >= end {
             return;
         }
